@@ -799,6 +799,10 @@ struct Scratch {
 
 /// Runs `f` with a fresh scratch directory as current directory and the case's environment
 /// installed (after the `/SCRATCH` substitution); cleans up afterwards.
+/// set by the executors whose every file-system access goes through the case's (guarded) locations: the
+/// file and rolling appender call sites; the bare roller cases write their active file relative to the cwd
+static CWD_MAY_GO: std::sync::atomic::AtomicBool = std::sync::atomic::AtomicBool::new(false);
+
 fn in_scratch(
     env: &[EnvEntry],
     guard_paths: &dyn Fn(&Path) -> Vec<String>,
@@ -823,6 +827,22 @@ fn in_scratch(
             Err(_) => true, // a panic will show as the observation
         }
     });
+    // process condition: when every location of the case is ABSOLUTE, the case runs in a process whose
+    // working directory has been deleted (`current_dir()` fails with ENOENT there): nothing the appenders
+    // and the roller do with an absolute, expanded location may depend on it (independently seeded change
+    // C19_r7_2: a builder that asked for the current directory unconditionally)
+    let all_absolute = safe
+        && CWD_MAY_GO.swap(false, Ordering::SeqCst)
+        && guard_paths(&dir).iter().all(|given| {
+            let g = given.clone();
+            matches!(guarded(move || log4rs::verif_hooks::expand_env_vars(&g)), Ok(loc) if loc.starts_with('/'))
+        });
+    if all_absolute {
+        let gone = dir.join(".cwd-gone");
+        if std::fs::create_dir(&gone).is_ok() && std::env::set_current_dir(&gone).is_ok() {
+            let _ = std::fs::remove_dir(&gone);
+        }
+    }
     let sc = Scratch { dir: dir.clone(), cfg_stem: cfg_stem.clone() };
     let r = if safe { Some(guarded(move || f(&sc))) } else { None };
     for (k, _) in os.iter() {
@@ -889,6 +909,7 @@ fn file_config_doc(kind: &str, path: &str) -> (&'static str, String) {
 }
 
 fn exec_file(kind: &str, env: &[EnvEntry], given: Vec<u8>) -> String {
+    CWD_MAY_GO.store(true, Ordering::SeqCst);
     let given_text = String::from_utf8_lossy(&given).into_owned();
     let gt = given_text.clone();
     let kind = kind.to_owned();
@@ -932,6 +953,7 @@ struct RollingOpts {
 }
 
 fn exec_rolling(kind: &str, env: &[EnvEntry], path: String, o: RollingOpts) -> String {
+    CWD_MAY_GO.store(true, Ordering::SeqCst);
     let (p1, pat1) = (path.clone(), o.pattern.clone());
     let fw = o.fw;
     let cfg_kind = kind == "rolling-cfg";
@@ -1057,6 +1079,7 @@ fn exec_roller(kind: &str, env: &[EnvEntry], pattern: String, base: u32, count: 
 }
 
 pub fn exec(fields: &[&str]) -> String {
+    CWD_MAY_GO.store(false, Ordering::SeqCst);
     init();
     let (fields, bg) = match fields.last() {
         Some(&"@bg") => (&fields[..fields.len() - 1], true),
